@@ -2,11 +2,13 @@
 import os, re, sys
 import common as C
 sys.path.insert(0, os.path.join(C.VERIF, "gen"))
-import progs, pyref, core, coregen
+import progs, pyref, core, coregen, precgen
+sys.path.insert(0, os.path.join(C.VERIF, "extract"))
+import e_prec
 
 LEVEL = "proof"
 META = dict(
-    technique="differential execution of the real engine against TWO independent reference interpreters of the documented semantics (Python) and the Lean 4 evaluator model, on grammar-directed programs printed with the fewest parentheses C allows; Lean theorems fix the laws of the evaluator model (short-circuit, selection, copy versus alias, block scoping)",
+    technique="differential execution of the real engine against TWO independent reference interpreters of the documented semantics (Python) and the Lean 4 evaluator model, on grammar-directed programs printed with the fewest parentheses C allows; Lean theorems fix the laws of the evaluator model (short-circuit, selection, copy versus alias, block scoping); Lean 4 proof that the operator-precedence core of the parser (model M-PREC of Operator/Prefix over the operator tables regenerated from the source, which are proved to be C's) reads back every expression tree from its minimal-parentheses token string",
     text=("Deciding part: (A) programs over the rich core (C operator table incl. bitwise/shift, unary, ternary; if / else-if / else chains; while, for, ranged-for with "
           "break/continue; switch with fall-through and default; functions with recursion, typed parameters, guards, early return; lambdas with aliasing captures; "
           "references; script classes with attributes, constructor, methods, copies and references of objects; vectors, maps, strings; try/throw) are generated as trees, "
@@ -15,9 +17,16 @@ META = dict(
           "the engine, the Lean evaluator and gen/pyref.py; all three must agree. Kernel-checked laws of the evaluator model: && / || short-circuit and otherwise "
           "yield the right operand's truth value, if selects exactly one branch and needs a bool, a false while runs nothing, `var x = y` gives x an object of its "
           "own, a reference shares the object (writes seen through aliases and nowhere else), a block leaves no scope behind however it is left, declarations go to "
-          "the innermost scope."),
+          "the innermost scope. PRECEDENCE AND ASSOCIATIVITY [Props/C03Prec, Lemmas/Prec]: the symbol arrays of every precedence level, the prefix operators, the node kind "
+          "each level builds and the shape of Operator(t_precedence) (operands one level tighter, else branch of ?: at the same level, the while loop) are regenerated from "
+          "chaiscript_parser.hpp on every run and are exactly C's [operator_table_is_C, operator_function_shape, binary_levels_disjoint]; for EVERY well-formed expression tree "
+          "(atoms, prefix, binary of any level, conditionals; any size and nesting) the model of Operator(0) rebuilds exactly the tree from its token string printed with the "
+          "fewest parentheses C allows and stops before whatever follows [precedence_roundtrip, chai_precedence_roundtrip: induction over the tree with a descent lemma over the "
+          "levels]; so two different trees never share a token string [tokens_determine_tree]; grouping spelled out on the table [grouping_on_chai_table]. Tie: (C) printed trees "
+          "and token soups (redundant / missing parentheses, doubled operators) through the real parser without optimizer, `chaimodel prec` and an independent precedence-climbing "
+          "reference with C's table: trees, node kinds (Logical_And / Logical_Or / Binary / If / Prefix) and accept / reject must agree."),
     note=("Trusted: the two Python reference interpreters (independent of the engine and of each other), gen/coregen.py, gen/progs.py, harness/evalprog.cpp; Lean kernel and "
-          "Model/Chai for part (B) and the laws. Integer values are kept inside int range (runs that leave it are skipped: C05 covers arithmetic); size() is wrapped in int()."),
+          "Model/Chai for part (B) and the laws; Model/Prec (tokens stand for what Symbol/Id deliver: white space, maximal munch and the statement grammar around Operator are not in it), extract/e_prec.py, gen/precgen.py. Integer values are kept inside int range (runs that leave it are skipped: C05 covers arithmetic); size() is wrapped in int()."),
     design_ref="DESIGN.md §6 C03")
 
 
@@ -41,8 +50,48 @@ def canon_core(o):
     return o
 
 
+def prec_stage(ctx, n):
+    """expression trees printed with the fewest parentheses (expected: the tree itself) and token soups (expected: what precedence climbing with C's
+    table says): the real parser without optimizer (harness optree, generic dump) and `chaimodel prec` (M-PREC over the regenerated tables)"""
+    rng = ctx.rng
+    with ctx.timer("harness_build"):
+        exe, log = C.harness_build("optree")
+    if exe is None:
+        ctx.oblige("harness build (optree)", False, (log or "")[-1500:])
+        return 0
+    cases, specs = [], []
+    for i in range(n):
+        if i % 3 != 2:
+            e = precgen.gen_tree(rng, rng.range(1, 6))
+            ts = precgen.toks(e)
+            want = "ok " + precgen.show(e)
+            ref = precgen.ref_parse(ts)
+            if ref != want:      # the two specifications (printer and reference parser) must agree with each other first
+                ctx.oblige("reference parser reads back the printer", False, "%s: %s vs %s" % (precgen.text(ts), ref, want))
+            ctx.hist("prec_kinds", "printed-tree")
+        else:
+            ts = precgen.soup(rng)
+            want = precgen.ref_parse(ts)
+            ctx.hist("prec_kinds", "soup-" + want.split()[0])
+        cases.append(ts)
+        specs.append(want)
+    with ctx.timer("model"):
+        mout = C.run_driver("prec", [precgen.model_line(ts) for ts in cases])
+    with ctx.timer("impl"):
+        iout, _ = C.run_harness_resilient(exe, [], ["raw " + precgen.text(ts).encode().hex() for ts in cases], timeout=900)
+    lines = ["model=%s\tspec=%s" % (precgen.canon_model(m), s) for m, s in zip(mout, specs)]
+    sizes = {}
+    for ts in cases:
+        b = min(len(ts) // 10 * 10, 100)
+        sizes[b] = sizes.get(b, 0) + 1
+    ctx.cov["prec_token_counts"] = {("%d-%d" % (k, k + 9)): v for k, v in sorted(sizes.items())}
+    return C.compare_streams(ctx, "optree", [precgen.text(ts) for ts in cases], lines, iout, canon_impl=lambda o, line: precgen.canon_impl(o),
+                             bucket=lambda line: "prec")
+
+
 def run(ctx):
-    status, text, rc = C.lean_obligations(ctx, ["C03"])
+    C.run_extractor(ctx, "operator tables and the shape of Operator()", e_prec, "Prec.lean")
+    status, text, rc = C.lean_obligations(ctx, ["C03", "C03Prec"])
     have_driver = (rc == 0 and os.path.exists(C.driver_path())) or C.ensure_driver(ctx, [])
     with ctx.timer("harness_build"):
         exe, log = C.harness_build("evalprog")
@@ -140,6 +189,8 @@ def run(ctx):
     found += C.compare_streams(ctx, "evalprog", [t[:900] for t in src], lines, [strip_shape(o) for o in iout], known=known_b,
                                skip=lambda spec, model, line: big_ints(spec) or big_ints(model),
                                nontrivial=lambda impl, line: True, bucket=lambda line: "model-syntax")
+    # ---------------- (C) the precedence core: real parser vs C's table (independent precedence-climbing reference) vs M-PREC
+    found += prec_stage(ctx, 30000 if thorough else 2500)
     ctx.cov["rule"] = ("(A) %d generated rich-core programs printed with minimal parentheses, engine vs gen/core.py reference; (B) %d generated programs in the model's syntax, "
                        "engine vs gen/pyref.py vs the Lean evaluator; distinct = distinct program texts; every program is non-trivial (it prints and is compared in full); "
                        "runs whose integers leave the int range are skipped" % (na, nb))
